@@ -320,7 +320,27 @@ def check_crop(prog: Program, res: Result, rule: str = "C12-crop", floor: int = 
         heads = cfg.nodes_of(lp)
         an = {n for c in apps for n in cfg.stmt_nodes_containing(c)}
         conts = [n for n in ast.walk(lp) if isinstance(n, ast.Continue)]
-        ok_skip = all(any(isinstance(g, ast.If) and "isnan" in astq.xnorm(fi.node, g.test) and "all" in astq.xnorm(fi.node, g.test) for g in ancestors(c)) for c in conts)
+        def _all_nan_test(t) -> bool:
+            x = astq.xnorm(fi.node, t)
+            return "isnan" in x and "all" in x
+
+        def _skip_ok(c) -> bool:
+            for g in ancestors(c):
+                if not isinstance(g, ast.If):
+                    continue
+                if _all_nan_test(g.test):
+                    return True
+                nm = astq.is_none_test(g.test)
+                if isinstance(nm, ast.Name):
+                    # `if v is None: continue` where v is None only on the all-NaN path
+                    nones = [s_ for s_ in ast.walk(lp) if isinstance(s_, ast.Assign) and norm(s_.targets[0]) == nm.id and astq.const_value(s_.value) is None
+                             and isinstance(s_.value, ast.Constant)]
+                    others = [s_ for s_ in ast.walk(lp) if isinstance(s_, ast.Assign) and norm(s_.targets[0]) == nm.id and s_ not in nones]
+                    if nones and others and all(any(isinstance(a, ast.If) and astq.in_body_of(s_, a) and _all_nan_test(a.test) for a in ancestors(s_)) for s_ in nones):
+                        return True
+            return False
+
+        ok_skip = all(_skip_ok(c) for c in conts)
         body_first = [m for h in heads for m in cfg.g.successors(h) if "true" in cfg.g[h][m]["labels"]]
         cn = {n for c in conts for n in cfg.stmt_nodes_containing(c)}
         w = cfg.must_pass(body_first, heads, an | cn, drop_edge=lambda x, y, labels: "exc" in labels)
